@@ -31,6 +31,7 @@ type G struct {
 	recvOK  bool
 	deferFr *frame
 	joinAll bool
+	callStack []*frame
 	name    string
 }
 
@@ -59,10 +60,12 @@ type Sched struct {
 	pools    map[string]*poolState
 	poolND   bool // nondeterministic sync.Pool.Get
 	Switches int
+	preemptions  int
+	preemptBound int
 }
 
 func newSched(it *Interp) *Sched {
-	s := &Sched{it: it, locks: map[string]*lockState{}, pools: map[string]*poolState{}}
+	s := &Sched{it: it, locks: map[string]*lockState{}, pools: map[string]*poolState{}, preemptBound: 2}
 	g0 := &G{id: 0, wake: make(chan struct{}, 1), name: "main"}
 	s.gs = []*G{g0}
 	s.cur = g0
@@ -135,13 +138,21 @@ func (s *Sched) schedPoint() {
 	// prefer continuing cur (index 0 = cur if enabled) to keep DFS cheap
 	idx := 0
 	if len(en) > 1 {
-		// put cur first
+		curEnabled := false
 		for i, g := range en {
 			if g == cur {
 				en[0], en[i] = en[i], en[0]
+				curEnabled = true
 			}
 		}
-		idx = s.it.ex.choose(len(en))
+		if curEnabled && s.preemptions >= s.preemptBound {
+			idx = 0 // context bound reached: only forced switches from now on
+		} else {
+			idx = s.it.ex.choose(len(en))
+			if curEnabled && idx != 0 {
+				s.preemptions++
+			}
+		}
 	}
 	next := en[idx]
 	if next.blocked { // lock or join became available
@@ -189,7 +200,11 @@ func (it *Interp) yield(fr *frame) {
 
 func (it *Interp) goStmt(fr *frame, cc *ssa.CallCommon, fv Value, args []Value, site ssa.Instruction) {
 	s := it.sched
-	g := &G{id: len(s.gs), wake: make(chan struct{}, 1), name: it.site(site)}
+	gname := "go " + site.Parent().String()
+	if f, ok := fv.(*FuncV); ok && f.fn != nil {
+		gname = "go " + f.fn.String()
+	}
+	g := &G{id: len(s.gs), wake: make(chan struct{}, 1), name: gname}
 	s.gs = append(s.gs, g)
 	go func() {
 		<-g.wake
